@@ -481,7 +481,7 @@ def gen_coq():
         else:
             base = {'iopt': 'index_optimized', 'ilist': 'index_list'}[o]
             ic = f'(ic_nat {base})' if ik == 'usize' else base
-        out.append(f'  | {i}%N => Some (@Build_FSM {coq_term(e)} {ic})  (* {name} *)')
+        out.append(f'  | {i}%N => Some (@Build_FSM {coq_term(e)} {ic} _)  (* {name} *)')
     out.append('  | _ => None')
     out.append('  end.')
     return '\n'.join(out) + '\n'
